@@ -246,6 +246,21 @@ func (m *Method) M__get__(instance, owner Object) (Object, error) {
 	if instance != None {
 		return NewBoundMethod(instance, m), nil
 	}
+	// A method of a type read through the type itself (e.g. str.upper):
+	// the receiver is the first positional argument of the call
+	if cls, ok := owner.(*Type); ok && m.Module == nil {
+		unbound := &Method{Name: m.Name, Doc: m.Doc, Flags: m.Flags}
+		unbound.method = func(_ Object, args Tuple, kwargs StringDict) (Object, error) {
+			if len(args) == 0 {
+				return nil, ExceptionNewf(TypeError, "descriptor '%s' of '%s' object needs an argument", m.Name, cls.Name)
+			}
+			if !args[0].Type().IsSubtype(cls) {
+				return nil, ExceptionNewf(TypeError, "descriptor '%s' requires a '%s' object but received a '%s'", m.Name, cls.Name, args[0].Type().Name)
+			}
+			return m.CallWithKeywords(args[0], args[1:], kwargs)
+		}
+		return unbound, nil
+	}
 	return m, nil
 }
 
